@@ -190,6 +190,63 @@ Theorem qi_needs_owner_keys : forall (hash pub addr sig : Type) H addr_of_pub ad
 Proof. exact authorised_ok. Qed.
 Print Assumptions qi_needs_owner_keys.
 
+(* the same at full strength, with the set lookup explicit (qi_process: input i = (outpoint, key),
+   compared with the entry found under ITS OWN outpoint): accepted IF AND ONLY IF there is an input,
+   the chain matches, EVERY input - each occurrence, at its own position, not each distinct key -
+   carries a Qi-ledger key whose address equals the owner recorded under that input's outpoint, and
+   (checkSig) the key aggregated over the carried keys, one per input with repetitions, verifies *)
+Theorem qi_accept_iff_every_input_owned : forall (hash pub addr sig : Type) H addr_of_pub addr_eqb in_qi_scope parse_ok agg verify
+    (outpoint : Type) utxo chain cs f oins sg,
+  qi_process hash pub addr sig H addr_of_pub addr_eqb in_qi_scope parse_ok agg verify outpoint utxo chain cs f oins sg = QOk <->
+  (oins <> [] /\ qi_chain f = chain
+   /\ Forall (spent_by_owner pub addr addr_of_pub addr_eqb in_qi_scope parse_ok outpoint utxo cs) oins
+   /\ (cs = true -> exists k, final_key pub agg (map snd oins) = Some k
+                             /\ verify k (H (qi_signing_bytes f)) sg = true)).
+Proof. exact process_iff. Qed.
+Print Assumptions qi_accept_iff_every_input_owned.
+
+Theorem qi_every_input_needs_its_owner_key : forall (hash pub addr sig : Type) H addr_of_pub addr_eqb in_qi_scope parse_ok agg verify
+    (outpoint : Type) utxo chain cs f oins sg,
+  qi_process hash pub addr sig H addr_of_pub addr_eqb in_qi_scope parse_ok agg verify outpoint utxo chain cs f oins sg = QOk ->
+  forall n op pk, nth_error oins n = Some (op, pk) ->
+    spent_by_owner pub addr addr_of_pub addr_eqb in_qi_scope parse_ok outpoint utxo cs (op, pk).
+Proof. exact process_every_input. Qed.
+Print Assumptions qi_every_input_needs_its_owner_key.
+
+(* one input anywhere whose entry is missing or owned by another address: refused, whatever the
+   other inputs are and whether or not the signature is checked *)
+Theorem qi_foreign_input_refused_anywhere : forall (hash pub addr sig : Type) H addr_of_pub addr_eqb in_qi_scope parse_ok agg verify
+    chain cs f pre pk e post sg,
+  (forall ea, e = Some ea -> addr_eqb (addr_of_pub pk) ea = false) ->
+  qi_authorised hash pub addr sig H addr_of_pub addr_eqb in_qi_scope parse_ok agg verify chain cs f (pre ++ (pk, e) :: post) sg <> QOk.
+Proof. exact foreign_input_refused. Qed.
+Print Assumptions qi_foreign_input_refused_anywhere.
+
+(* a key that legitimately spends one entry does not thereby cover another input carrying the same
+   key: if that input's entry is not owned by it the spend is refused, in either order *)
+Theorem qi_repeated_key_covers_only_its_own_entries : forall (hash pub addr sig : Type) H addr_of_pub addr_eqb in_qi_scope parse_ok agg verify
+    (outpoint : Type) utxo chain cs f pre op0 mid op pk post sg,
+  spent_by_owner pub addr addr_of_pub addr_eqb in_qi_scope parse_ok outpoint utxo cs (op0, pk) ->
+  (forall ea, utxo op = Some ea -> addr_eqb (addr_of_pub pk) ea = false) ->
+  qi_process hash pub addr sig H addr_of_pub addr_eqb in_qi_scope parse_ok agg verify outpoint utxo chain cs f
+             (pre ++ (op0, pk) :: mid ++ (op, pk) :: post) sg <> QOk
+  /\ qi_process hash pub addr sig H addr_of_pub addr_eqb in_qi_scope parse_ok agg verify outpoint utxo chain cs f
+             (pre ++ (op, pk) :: mid ++ (op0, pk) :: post) sg <> QOk.
+Proof. exact process_key_reuse_refused. Qed.
+Print Assumptions qi_repeated_key_covers_only_its_own_entries.
+
+(* the per-distinct-key variant of the loop (NOT the code; Proofs/C03.v own_loop_per_key) is not
+   equivalent: it accepts [key 1 on an entry of 1; key 1 on an entry of 2], the code's loop answers
+   QOwner, with and without checkSig *)
+Theorem qi_per_distinct_key_check_refuted :
+  exists ins : list (N * option N),
+    own_loop_per_key N N (fun p => p) N.eqb (fun _ => true) (fun _ => true) N.eqb true [] ins = QOk
+    /\ own_loop N N (fun p => p) N.eqb (fun _ => true) (fun _ => true) true ins = QOwner
+    /\ own_loop_per_key N N (fun p => p) N.eqb (fun _ => true) (fun _ => true) N.eqb false [] ins = QOk
+    /\ own_loop N N (fun p => p) N.eqb (fun _ => true) (fun _ => true) false ins = QOwner.
+Proof. exact per_key_loop_differs. Qed.
+Print Assumptions qi_per_distinct_key_check_refuted.
+
 Theorem qi_sig_binds_payload : forall (hash pub addr sig : Type) H addr_of_pub addr_eqb in_qi_scope parse_ok agg verify
     chain1 chain2 f1 f2 ins1 ins2 sg,
   qi_authorised hash pub addr sig H addr_of_pub addr_eqb in_qi_scope parse_ok agg verify chain1 true f1 ins1 sg = QOk ->
@@ -238,4 +295,15 @@ Example qi_nonvacuous :
   /\ x_qi 9000 true f [(([0; 200; 2], true, true), Some ([0; 200; 1], true))] true true = QOwner
   /\ x_qi 9000 true f [(([0; 200; 1], true, true), Some ([0; 200; 1], true))] true false = QSig
   /\ x_qi 1 true f [(([0; 200; 1], true, true), Some ([0; 200; 1], true))] true true = QChain.
+Proof. vm_compute. repeat split. Qed.
+
+(* repeated key: accepted on two entries it owns; refused (checked and unchecked) as soon as one
+   occurrence - second or first - consumes an entry of another owner *)
+Example qi_repeated_key_nonvacuous :
+  let f := mkQi 9000 [] [] [] in
+  let a := ([0; 200; 1], true, true) in
+  x_qi 9000 true f [(a, Some ([0; 200; 1], true)); (a, Some ([0; 200; 1], true))] true true = QOk
+  /\ x_qi 9000 true f [(a, Some ([0; 200; 1], true)); (a, Some ([0; 200; 2], true))] true true = QOwner
+  /\ x_qi 9000 false f [(a, Some ([0; 200; 1], true)); (a, Some ([0; 200; 2], true))] true true = QOwner
+  /\ x_qi 9000 true f [(a, Some ([0; 200; 2], true)); (a, Some ([0; 200; 1], true))] true true = QOwner.
 Proof. vm_compute. repeat split. Qed.
